@@ -2,10 +2,21 @@
 
 package sqlite
 
-import "github.com/resonatehq/resonate/internal/kernel/t_aio"
+import (
+	"database/sql"
+
+	"github.com/resonatehq/resonate/internal/kernel/t_aio"
+)
 
 // VerifExecute runs Execute on the store's worker. It exists only for
 // the external verification harness (build tag "verif").
 func (s *SqliteStore) VerifExecute(transactions []*t_aio.Transaction) ([][]*t_aio.Result, error) {
 	return s.worker.Execute(transactions)
+}
+
+// VerifDB hands out the store's database handle, so that the harness can
+// observe a private in-memory database (path ":memory:") which no second
+// connection can reach.
+func (s *SqliteStore) VerifDB() *sql.DB {
+	return s.db
 }
